@@ -132,6 +132,33 @@ def r2_functions(program, folder, rep, eths):
             m = match(("item", ("item", TABLE, V("i")), V("j")), st_)
             if m is not None:
                 cells.add((st_, m["i"], m["j"]))
+        if len(cells) != 1 and fname == "spinn5_local_eth_coord" and any(
+                st_[0] in ("phi", "mu") for st_ in subterms(rets[0])):
+            # the wrap-around written with tests instead of %: each
+            # coordinate may only be moved by its own dimension
+            from ..terms import alternatives as _alts
+            for k in (0, 1):
+                own, other = ps[2 + k], ps[3 - k]
+                for alt in _alts(rets[0][1 + k]):
+                    try:
+                        atoms_ = fl.sym(_wp(reify(plain(alt))),
+                                        fl.cfg.entry).atoms()
+                    except AnalysisError:
+                        continue
+                    if any(a_ == other for a_ in atoms_) and not any(
+                            a_ == own for a_ in atoms_):
+                        rep.bad("C19-R2", inst, "wrap of result %d" % k,
+                                "the %s coordinate of the Ethernet chip is "
+                                "wrapped round by the machine's %s (%s) "
+                                "instead of its %s (%s): on a machine whose "
+                                "width and height differ the chip reported "
+                                "is outside the machine or on another "
+                                "board" % ("xy"[k], "height" if k == 0 else
+                                           "width", other, "width" if k == 0
+                                           else "height", own), fn)
+            raise AnalysisError("%s wraps the coordinates with tests "
+                                "instead of %%; that form is not analysed "
+                                "further" % fname)
         if len(cells) != 1:
             raise AnalysisError("%s no longer indexes SPINN5_ETH_OFFSET "
                                 "once" % fname)
